@@ -127,14 +127,41 @@ def _lib_frame(tb):
     return False
 
 
+class CaseTimeout(BaseException):
+    """One case ran into the watchdog (BaseException: no `except Exception` swallows it)."""
+
+
+class Inconclusive(BaseException):
+    """The watchdog's verdict; a BaseException so that Hypothesis stops at once instead of
+    shrinking a case every run of which waits for the watchdog again."""
+
+
+CASE_TIMEOUT_S = int(os.environ.get("HGXVERIF_CASE_TIMEOUT", "240"))
+
+
+def _on_alarm(signum, frame):
+    raise CaseTimeout()
+
+
 def run_case(clause, case, ctx):
     """Run one case; normalise what comes out.
 
     Violation                      -> re-raised
     exception through library code -> Violation("unexpected exception ...")
     exception in the harness only  -> HarnessError
+    no answer within CASE_TIMEOUT_S (cases take milliseconds to seconds) -> HarnessError
+        "inconclusive": the check ends with exit 2 instead of waiting for ever on a call
+        that does not return (a time budget is never reported as a violation)
     """
+    import signal
     buf = io.StringIO()
+    use_alarm = hasattr(signal, "SIGALRM")
+    if use_alarm:
+        try:
+            old_handler = signal.signal(signal.SIGALRM, _on_alarm)
+            signal.alarm(CASE_TIMEOUT_S)
+        except ValueError:      # not in the main thread
+            use_alarm = False
     try:
         with redirect_stdout(buf):
             clause.check(case, ctx)
@@ -144,6 +171,15 @@ def run_case(clause, case, ctx):
         raise
     except (KeyboardInterrupt, SystemExit):
         raise
+    except CaseTimeout as e:
+        frames = traceback.extract_tb(e.__traceback__)
+        lib = [f for f in frames if "hypergraphx" in f.filename and "hgxverif" not in f.filename]
+        at = lib[-1] if lib else frames[-1]
+        raise Inconclusive(
+            "INCONCLUSIVE: a case of clause %s did not finish within %d s (it was at %s:%d in %s "
+            "when the watchdog fired); case: %s"
+            % (clause.name, CASE_TIMEOUT_S, os.path.basename(at.filename), at.lineno, at.name,
+               canon(case)[:1500])) from None
     except BaseException as e:  # noqa
         # Hypothesis control-flow exceptions must pass through untouched
         mod = type(e).__module__ or ""
@@ -166,6 +202,10 @@ def run_case(clause, case, ctx):
             "harness exception %s: %s at %s\n%s"
             % (type(e).__name__, e, where, "".join(traceback.format_tb(tb)[-6:]))
         ) from e
+    finally:
+        if use_alarm:
+            signal.alarm(0)
+            signal.signal(signal.SIGALRM, old_handler)
 
 
 def load_known(prop_id):
@@ -259,6 +299,8 @@ def _run_shard(args):
                          "trace": last_fail.get("trace")}
     except HarnessError as e:
         st["harness_error"] = str(e)
+    except Inconclusive as e:
+        st["harness_error"] = str(e)
     except BaseException as e:  # health check failures, hypothesis errors
         st["harness_error"] = "%s: %s\n%s" % (type(e).__name__, e,
                                                traceback.format_exc()[-1500:])
@@ -282,6 +324,8 @@ def replay_file(prop_id, path, quiet=False):
     ctx = Ctx()
     try:
         run_case(clause, doc["case"], ctx)
+    except Inconclusive as e:
+        raise HarnessError(str(e)) from None
     except Violation as v:
         known_listed = load_known(prop_id)
         for key, pred in clause.known.items():
